@@ -25,7 +25,9 @@ link generator (definitions at x0000, exact one-word overlaps), C12 (`run_with_l
 failing input of those properties too), C33 (input typed while the program runs), C17 (giant blocks), C19 (a process that
 dies is re-run input by input), C31 (machines reset before the compared runs, timer area), C08 (`isa.run` against the
 reference semantics counts as failing input), C09/C14/C27/C28 (directed boundary programs, frame arguments, denied and
-untracked accesses, strict-mode panics), C34 (seed 0).
+untracked accesses, strict-mode panics), C34 (seed 0); in the later round: C11 (packed strings ending at a zero low byte
+under a non-zero high byte), C27 (a refused return must not pop; directed call/return programs in strict mode), C28 (the observer
+after a multi-step run against the OR of a twin's single steps).
 
 """
 s = open(os.path.join(V, "DESIGN.md")).read()
